@@ -5,5 +5,5 @@ CONSTANTS
 SPECIFICATION ASpec
 CONSTRAINT QueueSmall
 INVARIANTS TwoParts TypeOK AtMostOnePlotting PlottingIsCurrent PendingKnown
-PROPERTIES StopAllQuiets MineStartsMiner MinerOffOnlyByStop
+PROPERTIES StopAllQuiets MineStartsMiner MinerOffOnlyByStop LockRefusedWhileMining KeeperStartsUnlocked
 CHECK_DEADLOCK FALSE
